@@ -107,6 +107,10 @@ pub struct Monitors {
     /// after the previous segment describes the state that try runs in.
     at_key_try: BTreeSet<Aid>,
     prev_snap_exact: bool,
+    /// ... and, for the case that no snapshot could be taken because an agent was parked in the middle of a
+    /// critical section (which one, at which site), the agents as they were then.
+    prev_mid: Option<(Aid, u32)>,
+    prev_agents: Vec<crate::exec::AgentView>,
 }
 
 impl Monitors {
@@ -124,6 +128,8 @@ impl Monitors {
             uses: BTreeMap::new(),
             lock_start: BTreeMap::new(),
             at_key_try: BTreeSet::new(),
+            prev_mid: None,
+            prev_agents: Vec::new(),
             prev_snap_exact: false,
         }
     }
@@ -225,6 +231,8 @@ impl Monitors {
             .map(|v| v.aid)
             .collect();
         self.prev_snap_exact = !seg.mid_cs && !seg.snap.gone && !seg.snap.glock_held && !seg.snap.poisoned;
+        self.prev_mid = seg.mid;
+        self.prev_agents = seg.agents.clone();
         if self.lib_failed {
             self.hits.retain(|h| h.id.starts_with("C13."));
         }
@@ -285,6 +293,36 @@ impl Monitors {
                                     ),
                                 );
                             }
+                        }
+                    }
+                }
+                // The same while another agent is parked in the middle of a critical section (no snapshot then): judged
+                // from what the client knows. Nobody can legitimately hold the key's mutex if no guard for the key is
+                // alive (a guard counts until its drop has returned), no waiting acquisition of the key is past its
+                // look-up, no stream has the key in its snapshot, and the critical section in progress is not a scan
+                // (a scan locks what it finds; site 5). A critical section that takes a key mutex others can reach,
+                // even for a moment, makes such a try fail.
+                if self.at_key_try.contains(a) && !self.prev_snap_exact && *obs == Obs::Nothing {
+                    if let (Some((_, site)), Some(Call::Lock { key, .. })) = (self.prev_mid, self.agents.get(a).and_then(|x| x.call)) {
+                        let held = self.guards.values().any(|g| g.live && g.key == key);
+                        let awaited = self.prev_agents.iter().any(|v| {
+                            v.alive
+                                && v.aid != *a
+                                && match &v.kind {
+                                    AgentKind::Lock { sh, key: k2, .. } => *k2 == key && !sh.is_try() && v.past_lookup,
+                                    AgentKind::Stream => v.stream_keys.contains(&key),
+                                    AgentKind::Expire => true,
+                                    _ => false,
+                                }
+                        });
+                        if site != 5 && !held && !awaited && !self.lib_failed {
+                            self.hit(
+                                "C05.spurious_try_fail",
+                                format!(
+                                    "{}: the try_lock of key {} failed although no guard for it is alive and no acquisition or stream is waiting for it (judged while another agent is in the middle of a critical section, site {})",
+                                    label.text(), key, site
+                                ),
+                            );
                         }
                     }
                 }
